@@ -7,6 +7,26 @@ NOTES = (
 )
 
 CHECKS = {
+    "C01": {
+        "text": "Eight structural necessary conditions of walk exactness are decided on the walk loop, the regrouping helpers, the filter generator and both fetchers (all located by role): containment and seen-set guards on every path to the only yield, delivery of every batch, renewal of the loop variable, stride/offset/key agreement of the positional regrouping, provable ascending order of every request given to a truncating fetcher, continue-from-last / stop-on-leaving-root, marker cut-off and order preservation.",
+        "note": "Trusted: ast, the analyser, x690 ObjectIdentifier containment/order semantics. Assumes a conformant agent and pairwise disjoint roots. Not decided: set equality of the yielded instances with an arbitrary agent database as a whole.",
+        "technique": "guard facts on all CFG paths + reaching definitions + must-pass-through + symbolic stride/offset agreement (static)",
+    },
+    "C02": {
+        "text": "The bulk walk shares the GETNEXT walk's loop (delegation decided); in addition a container-kind analysis shows that every fetcher returns a faithful prefix of the response bindings (no OID-keyed container that collapses duplicates), the GETBULK size bound is decided against the RFC 3416 formula by simulating the operation's CFG on an integer grid, and request counters / response split / bulk size agree.",
+        "note": "Trusted: ast, the analyser, RFC 3416 4.2.3 bound. Relies on C01's rules for the shared loop. Not decided: agreement of both walks on every database and agent truncation policy as a whole.",
+        "technique": "container-kind (multiplicity) dataflow + CFG simulation on an integer grid against the RFC formula (static)",
+    },
+    "C03": {
+        "text": "Every function that can be the walk's fetcher is shown to compare each returned OID with its predecessor position by position, strictly (three orderings), before returning; every fetch in the loop is covered by a handler that ends the walk normally in lenient mode and re-raises otherwise; the loop variable is renewed on every path. Termination and no-re-request follow from these premises (argument recorded in the evidence).",
+        "note": "Trusted: ast, the analyser, x690 OID ordering, finiteness of the OID universe the agent reveals. Not decided: the numeric request bound.",
+        "technique": "ordering evaluation of guards + index-arithmetic evaluation of pairing + handler coverage simulation (static)",
+    },
+    "C04": {
+        "text": "Request construction (PDU class, one binding per OID in caller order, NULL / typed SET value after refusal), count checks decided on the fewer/equal/more orderings by CFG simulation, faithful positional extraction, established length before constant subscripts, and typed missing-object detection are decided for get/getnext/set and their multi variants. One genuine defect is recorded as known finding (public multigetnext truncation).",
+        "note": "Trusted: ast, the analyser. GETBULK bound is C02-R2, ids C07, error-status C08. Not decided: equality of returned values with the agent database.",
+        "technique": "CFG simulation over count orderings + container-kind dataflow + callee length summaries + kind typing of isinstance operands (static)",
+    },
     "C07": {
         "category": "proof",
         "text": "All five structural clauses that make up the mechanism (one clock read per request, unavoidable exact id validation in every function that talks to the network, community/version refusal, discovery id check) are decided on every path of the functions involved; acceptance for every clock schedule follows because the id placed in the PDU and the id validated are one value.",
